@@ -168,3 +168,38 @@ theorem parseBlock_write (E : Env) (hs : Hdrs) (hsm : Small E hs) (hn : hs.lengt
   exact parseEntries_enc E hs hsm rest {}
 
 end BfeVerif.C39
+
+namespace BfeVerif.C39
+
+/-- where the parser stands after a block (or that it fails) -/
+def restOf (r : Except Err (PState × Bytes)) : Option Bytes :=
+  match r with
+  | .ok (_, rest) => some rest
+  | .error _ => none
+
+/-- the position reached does not depend on the names being lower-cased, duplicated, … (flags never stop the loop) -/
+theorem parseEntries_rest_indep (E E' : Env) (n : Nat) (inp : Bytes) (s s' : PState) :
+    restOf (parseEntries E n inp s) = restOf (parseEntries E' n inp s') := by
+  induction n generalizing inp s s' with
+  | zero => simp [parseEntries, restOf]
+  | succ k ih =>
+    rw [parseEntries, parseEntries]
+    cases h1 : rd32 inp with
+    | none => simp [restOf]
+    | some p1 =>
+      obtain ⟨nl, r1⟩ := p1
+      simp only []
+      by_cases hl : r1.length < nl
+      · simp [hl, restOf]
+      · simp only [hl, if_false]
+        cases h2 : rd32 (r1.drop nl) with
+        | none => simp [restOf]
+        | some p2 =>
+          obtain ⟨vl, r3⟩ := p2
+          simp only []
+          by_cases hv : r3.length < vl
+          · simp [hv, restOf]
+          · simp only [hv, if_false]
+            exact ih _ _ _
+
+end BfeVerif.C39
